@@ -382,7 +382,7 @@ func init() {
 	core.Register(&core.Check{
 		Spec: core.Spec{
 			Prop:        "C06",
-			Rule:        "At quiescent points of random multi-node histories (all generators, self transfers, boundary amounts, post-truncation ledgers) CalculateBalance is queried for every wallet, node wallet, sealer and a never-seen address, repeatedly (map order decides the tip): every answer must equal checkpoint + inflow - outflow over one current tip and its live ancestors (big integers, from the snapshot), an error is admissible only when some tip's sum is negative or unrepresentable; ledger digest equal before/after; nodes with identical vertex sets hold identical checkpoint funds and, single-tipped, answer identically. Non-trivial = queries on ledgers with several tips, checkpoint funds, invalid sums or issuer=receiver wallets; distinct by (tips bucket, distinct sums, invalid, funds, self). One batch asks through the node's API instead: on a real node (notary + gossip services) both wallets of a transfer ask notary Balance before (so that an answer is memorised) and after a transfer sealed on proposal, a contract with spice confirmed / rejected by its receiver, and a gossiped vertex; the answer must become the ledger's own CalculateBalance answer (bounded polling, the node invalidates in goroutines; only a value that stays wrong is a violation). A fixed single-chain scenario funds a wallet, checkpoints the funding, lets the wallet spend everything and checkpoints that spend: the balance must be exactly zero. The notary-level batch also admits a transfer through the orphan retry path (known finding: memorised balances stay stale there).",
+			Rule:        "At quiescent points of random multi-node histories (all generators, self transfers, boundary amounts, post-truncation ledgers) CalculateBalance is queried for every wallet, node wallet, sealer and a never-seen address, repeatedly (map order decides the tip): every answer must equal checkpoint + inflow - outflow over one current tip and its live ancestors (big integers, from the snapshot), an error is admissible only when some tip's sum is negative or unrepresentable; ledger digest equal before/after; nodes with identical vertex sets hold identical checkpoint funds and, single-tipped, answer identically. Non-trivial = queries on ledgers with several tips, checkpoint funds, invalid sums or issuer=receiver wallets; distinct by (tips bucket, distinct sums, invalid, funds, self). One batch asks through the node's API instead: on a real node (notary + gossip services) both wallets of a transfer ask notary Balance before (so that an answer is memorised) and after a transfer sealed on proposal, a contract with spice confirmed / rejected by its receiver, and a gossiped vertex; the answer must become the ledger's own CalculateBalance answer (bounded polling, the node invalidates in goroutines; only a value that stays wrong is a violation). A fixed single-chain scenario funds a wallet, checkpoints the funding, lets the wallet spend everything and checkpoints that spend: the balance must be exactly zero. The notary-level batch also admits a transfer through the orphan retry path (known finding: memorised balances stay stale there). Around every judged truncation four clients keep asking for balances; every answer, computed before, during or after the cut, must be the pre-truncation answer.",
 			Assumptions: []string{ledgerAssume},
 			MinEvals:    500, MinNontriv: 8,
 		},
